@@ -111,7 +111,11 @@ def generate(tier, rng):
             t = gen.random_itier(rng, tmax=30, maxn=5) if rng.random() < 0.6 else gen.random_ptier(rng, tmax=30, maxn=5, distinct=rng.random() < 0.6)
             corrupt = None
             if rng.random() < 0.7:
-                corrupt = rng.choice(["min_up", "max_down", "swap", "reverse_entry", "overlap", "overlap", "none"])
+                corrupt = rng.choice(["min_up", "max_down", "swap", "reverse_entry", "overlap", "overlap", "none", "swap_equal"])
+            if corrupt == "swap_equal" and t["kind"] == "P" and t["entries"]:
+                # two points at one time, stored in the other order: still in time order, still valid
+                e = rng.choice(t["entries"])
+                t["entries"] = sorted(t["entries"] + [[e[0], e[1] + "z"]])
             cases.append({"op": "validate", "tier": t, "corrupt": corrupt, "scale": sc})
     # Textgrid.validate: True exactly when every tier has the textgrid's span and is itself valid (names unique)
     for _ in range(300 if tier == "quick" else 8000):
@@ -176,6 +180,11 @@ def run(case):
                 t.maxTimestamp = t.maxTimestamp - sc.f(5)
             elif c == "swap" and len(t._entries) >= 2:
                 t._entries[0], t._entries[1] = t._entries[1], t._entries[0]
+            elif c == "swap_equal":
+                for k in range(len(t._entries) - 1):
+                    if len(t._entries[k]) == 2 and t._entries[k][0] == t._entries[k + 1][0]:
+                        t._entries[k], t._entries[k + 1] = t._entries[k + 1], t._entries[k]
+                        break
             elif c == "reverse_entry" and len(t._entries) >= 1 and case["tier"]["kind"] == "I":
                 e = t._entries[0]
                 t._entries[0] = type(e)(e[1], e[0], e[2])
